@@ -12,16 +12,26 @@ open Pcore.Lat (Rng)
 
 def strOfL (s : Str) : String := String.ofList s
 
+/-- the exact value of a finite binary64, scaled by 2^1074 (the representation of float bounds in the lattice model) -/
+def dyadicOfBits (b : Nat) : Int :=
+  let neg := b ≥ 2 ^ 63
+  let m := b % 2 ^ 63
+  let e := m / 2 ^ 52
+  let f := m % 2 ^ 52
+  let v : Nat := if e = 0 then f else (2 ^ 52 + f) * 2 ^ (e - 1)
+  if neg then -(v : Int) else (v : Int)
+
 mutual
 def Ty.toLat : Ty → Option Pcore.Lat.Ty
   | .named n =>
     match strOfL n with
     | "Any" => some .any | "Unit" => some .unit | "Undef" => some .undef | "Default" => some .dflt | "Scalar" => some .scalar
     | "ScalarData" => some .scalarData | "Numeric" => some .numeric | "Data" => some .data | "RichData" => some .richData
-    | "Binary" => some .bin | "Float" => some Pcore.Lat.floatAll | "String" => some .str
+    | "Binary" => some .bin | "String" => some .str
     | "Timespan" => some (.tspan Pcore.Lat.Rng.all) | "Object" => some (.object none)
     | _ => none
   | .int lo hi => some (.int ⟨lo, hi⟩)
+  | .float lo _ hi _ => some (.float (dyadicOfBits lo) (dyadicOfBits hi))
   | .strSz lo hi => some (.strSz ⟨lo, hi⟩)
   | .strVal s => some (.strVal (strOfL s))
   | .bool b => some (.bool b)
